@@ -89,14 +89,17 @@ package markers
 //@   loop 7: invariant forall k int :: 0 <= k && k < $n ==> !markEq(markOf(c), refMarks[k])
 
 //@ func decodeMark
-//@   props C05 C01 C02
+//@   props C05 C01 C02 C03 C12
 //@   requires cause != nil
+// wire invariant (C03 / C12): the type marks a peer's encodeMark puts into the payload are type names
+//@   requires[C03,C12] typeis(payload, *errorspb.MarkPayload) ==> (forall i int :: 0 <= i && i < len(payload.(*errorspb.MarkPayload).Types) ==> safeS(payload.(*errorspb.MarkPayload).Types[i].FamilyName) && safeS(payload.(*errorspb.MarkPayload).Types[i].Extension))
 //@   ensures !typeis(payload, *errorspb.MarkPayload) ==> result == nil
 //@   ensures result != nil ==> typeis(result, *withMark) && result.(*withMark).cause == cause && result.(*withMark).mark.msg == payload.(*errorspb.MarkPayload).Msg && result.(*withMark).mark.types == payload.(*errorspb.MarkPayload).Types
 
 //@ func encodeMark
-//@   props C01 C02
+//@   props C01 C02 C03 C12
 //@   requires typeis(err, *withMark)
+//@   ensures[C03,C12] forall i int :: 0 <= i && i < len(result2.(*errorspb.MarkPayload).Types) ==> safeS(result2.(*errorspb.MarkPayload).Types[i].FamilyName) && safeS(result2.(*errorspb.MarkPayload).Types[i].Extension)
 //@   ensures result0 == "" && len(result1) == 0
 //@   ensures typeis(result2, *errorspb.MarkPayload) && result2.(*errorspb.MarkPayload).Msg == err.(*withMark).mark.msg && result2.(*errorspb.MarkPayload).Types == err.(*withMark).mark.types
 
